@@ -25,6 +25,37 @@ type amr struct {
 
 	payload, accP, mapP, redP *ssa.Parameter
 	rule                      string
+
+	// pre: blocks of the helper that run before any goroutine is started (not reachable from a
+	// spawn site). emptyRets: returns in such blocks that are taken only for an empty payload.
+	pre       map[*ssa.BasicBlock]bool
+	emptyRets map[*ssa.Return]bool
+}
+
+// setPre computes pre and emptyRets from the spawn sites (instructions of the helper's body).
+func (a *amr) setPre(spawns ...ssa.Instruction) {
+	a.pre = map[*ssa.BasicBlock]bool{}
+	a.emptyRets = map[*ssa.Return]bool{}
+	after := map[*ssa.BasicBlock]bool{}
+	for _, sp := range spawns {
+		if sp == nil || sp.Parent() != a.fn {
+			return
+		}
+		after[sp.Block()] = true
+		for b := range blockReach(sp.Block()) {
+			after[b] = true
+		}
+	}
+	for _, b := range a.fn.Blocks {
+		if !after[b] && b != a.fn.Recover {
+			a.pre[b] = true
+		}
+	}
+	for _, ret := range returnsOf(a.fn) {
+		if a.pre[ret.Block()] && a.underEmptyPayload(ret.Block()) {
+			a.emptyRets[ret] = true
+		}
+	}
 }
 
 // root resolves a value to the set of values it can originate from, looking through
@@ -624,6 +655,7 @@ func ruleAMR(r *Run) {
 		a.bad("A3", "reducer-spawned-in-loop", Gr, "the reducer is spawned inside a loop: several reducers would run concurrently")
 		return
 	}
+	a.setPre(G, Gr)
 	if _, isGo := Gr.(*ssa.Go); !isGo {
 		a.bad("A3", "reducer-not-goroutine", Gr, "the reducer is not started with go: the caller would block before Wait")
 		return
@@ -977,6 +1009,10 @@ func ruleAMR(r *Run) {
 	}
 	okJoin := true
 	for _, ret := range returnsOf(fn) {
+		if a.emptyRets[ret] {
+			a.ok("A6", "empty-payload-return", ret, "return before any goroutine is started, taken only when len(payload) == 0: there is nothing to map, reduce or join")
+			continue
+		}
 		if !instrDominates(wait, ret) {
 			a.bad("A6", "return-without-wait", ret, "a return of the helper is not dominated by wg.Wait(): it can return before all items are mapped and reduced")
 			okJoin = false
@@ -1012,13 +1048,14 @@ func ruleAMR(r *Run) {
 			if instrDominates(wait, s) {
 				all := true
 				for _, ret := range returnsOf(fn) {
-					if !instrDominates(s, ret) {
+					if !instrDominates(s, ret) && !a.emptyRets[ret] {
 						all = false
 					}
 				}
-				// and before any rundefers
+				// and before any rundefers (those of an empty-payload return run before any
+				// goroutine exists)
 				for _, ins := range allInstrs(fn) {
-					if _, ok := ins.(*ssa.RunDefers); ok && !instrDominates(s, ins) && ins.Block() != fn.Recover {
+					if _, ok := ins.(*ssa.RunDefers); ok && !instrDominates(s, ins) && ins.Block() != fn.Recover && !a.emptyRetBlock(ins.Block()) {
 						all = false
 					}
 				}
@@ -1402,8 +1439,22 @@ func (a *amr) checkReads(accCell, errsCell *ssa.Alloc, wait ssa.CallInstruction,
 				if f == a.fn && x.Val == ssa.Value(a.accP) && c == ssa.Value(accCell) && instrDominates(x, wait) && !blockInCycle(x.Block()) {
 					continue // entry spill of the parameter
 				}
+				if f == a.fn && a.pre[x.Block()] && c == ssa.Value(errsCell) && isNilConst(unwrap(x.Val)) {
+					continue // the (still empty) list is set to nil before any goroutine exists
+				}
 				if f == a.fn && instrDominates(wait, x) {
-					continue // after the join the caller owns the cells again
+					// after the join the caller owns the cells again, but what it returns must still be
+					// what the reducer accumulated: only re-storing the cell's own value (the result
+					// spill of a named result) or nil for an empty list leaves that intact
+					if ld, ok := unwrap(x.Val).(*ssa.UnOp); ok && ld.Op == token.MUL && a.cell(ld.X) == c && instrDominates(wait, ld) {
+						continue
+					}
+					if c == ssa.Value(errsCell) && isNilConst(unwrap(x.Val)) && a.underEmptyErrs(x.Block(), errsCell) {
+						continue
+					}
+					okAll = false
+					a.bad("A8", "result-rewritten-after-join", x, "acc/errs is assigned a new value between the join and the return: what the helper returns is no longer what the reducer accumulated (a shortened or filtered error list loses errors)")
+					continue
 				}
 				okAll = false
 				a.bad("A8", "shared-cell-write", x, "acc/errs is written outside the reducer goroutine before the join: data race with the reducer")
@@ -1420,6 +1471,12 @@ func (a *amr) checkReads(accCell, errsCell *ssa.Alloc, wait ssa.CallInstruction,
 				}
 				if f == a.fn && instrDominates(wait, x) {
 					continue
+				}
+				if f == a.fn && a.pre[x.Block()] {
+					continue // no goroutine has been started yet: nobody else writes the cell
+				}
+				if f == a.fn && a.fn.Recover != nil && x.Block() == a.fn.Recover {
+					continue // go/ssa's recover block reloads named results; it runs only after a recovered panic
 				}
 				okAll = false
 				a.bad("A8", "read-before-join", x, "acc/errs is read outside the reducer before wg.Wait(): the value may miss reductions/errors")
@@ -1451,7 +1508,7 @@ func (a *amr) checkReads(accCell, errsCell *ssa.Alloc, wait ssa.CallInstruction,
 			}
 			if isNilConst(v) {
 				// nil only when the list is empty
-				if a.underEmptyErrs(ret, errsCell) {
+				if a.underEmptyErrs(ret.Block(), errsCell) || a.emptyRets[ret] {
 					continue
 				}
 				a.bad("A8", "errors-dropped", ret, "the helper returns a nil error list on a path not guarded by len(errs) == 0: errors are lost")
@@ -1509,8 +1566,43 @@ func (a *amr) retRoots(v ssa.Value, ret *ssa.Return) []ssa.Value {
 	return []ssa.Value{v}
 }
 
-// underEmptyErrs: the return's block is on the len(errs)==0 side of a test of the errs cell.
-func (a *amr) underEmptyErrs(ret *ssa.Return, errsCell *ssa.Alloc) bool {
+func (a *amr) emptyRetBlock(b *ssa.BasicBlock) bool {
+	for ret := range a.emptyRets {
+		if ret.Block() == b {
+			return true
+		}
+	}
+	return false
+}
+
+// underEmptyErrs: block b is on the "list is empty" side of a test of the errs cell.
+func (a *amr) underEmptyErrs(b *ssa.BasicBlock, errsCell *ssa.Alloc) bool {
+	isErrs := func(v ssa.Value) bool {
+		ld, ok := unwrap(v).(*ssa.UnOp)
+		return ok && ld.Op == token.MUL && a.cell(ld.X) == ssa.Value(errsCell)
+	}
+	return a.underEmpty(b, isErrs)
+}
+
+// underEmptyPayload: block b is on the len(payload)==0 side of a test of the payload parameter.
+func (a *amr) underEmptyPayload(b *ssa.BasicBlock) bool {
+	return a.underEmpty(b, func(v ssa.Value) bool { return a.isParam(v, a.payload) })
+}
+
+// underEmpty: block b is reached only through the "empty" side of a test of the slice
+// recognised by isVal: len(x) == 0, len(x) > 0, len(x) < 1, 0 < len(x), x == nil, x != nil …
+// (a nil slice is an empty slice; `x == nil` being false says nothing, which is the safe side).
+func (a *amr) underEmpty(b *ssa.BasicBlock, isVal func(ssa.Value) bool) bool {
+	isLen := func(v ssa.Value) bool {
+		c, ok := v.(*ssa.Call)
+		if !ok {
+			return false
+		}
+		if bi, ok := c.Call.Value.(*ssa.Builtin); !ok || bi.Name() != "len" {
+			return false
+		}
+		return isVal(c.Call.Args[0])
+	}
 	for _, ins := range allInstrs(a.fn) {
 		iff, ok := ins.(*ssa.If)
 		if !ok {
@@ -1520,47 +1612,37 @@ func (a *amr) underEmptyErrs(ret *ssa.Return, errsCell *ssa.Alloc) bool {
 		if !ok {
 			continue
 		}
-		lenOfErrs := func(v ssa.Value) bool {
-			c, ok := v.(*ssa.Call)
-			if !ok {
-				return false
+		op, x, y := bo.Op, bo.X, bo.Y
+		if !isLen(x) && !isVal(x) {
+			// constant on the left: mirror the comparison
+			x, y = y, x
+			switch op {
+			case token.LSS:
+				op = token.GTR
+			case token.GTR:
+				op = token.LSS
+			case token.LEQ:
+				op = token.GEQ
+			case token.GEQ:
+				op = token.LEQ
 			}
-			if b, ok := c.Call.Value.(*ssa.Builtin); !ok || b.Name() != "len" {
-				return false
-			}
-			ld, ok := unwrap(c.Call.Args[0]).(*ssa.UnOp)
-			return ok && ld.Op == token.MUL && a.cell(ld.X) == ssa.Value(errsCell)
-		}
-		// errs == nil / errs != nil: a nil list is an empty list
-		errsIsNil := func() bool {
-			for _, pr := range [][2]ssa.Value{{bo.X, bo.Y}, {bo.Y, bo.X}} {
-				ld, ok := unwrap(pr[0]).(*ssa.UnOp)
-				if ok && ld.Op == token.MUL && a.cell(ld.X) == ssa.Value(errsCell) && isNilConst(unwrap(pr[1])) {
-					return true
-				}
-			}
-			return false
 		}
 		var emptySide *ssa.BasicBlock
 		switch {
-		case errsIsNil() && bo.Op == token.NEQ:
+		case isVal(x) && isNilConst(unwrap(y)) && op == token.NEQ:
 			emptySide = iff.Block().Succs[1]
-		case errsIsNil() && bo.Op == token.EQL:
+		case isVal(x) && isNilConst(unwrap(y)) && op == token.EQL:
 			emptySide = iff.Block().Succs[0]
-		case lenOfErrs(bo.Y) && isIntConst(bo.X, 0) && (bo.Op == token.LSS || bo.Op == token.NEQ):
+		case isLen(x) && isIntConst(y, 0) && (op == token.GTR || op == token.NEQ):
 			emptySide = iff.Block().Succs[1]
-		case lenOfErrs(bo.Y) && isIntConst(bo.X, 0) && bo.Op == token.EQL:
+		case isLen(x) && isIntConst(y, 0) && (op == token.EQL || op == token.LEQ):
 			emptySide = iff.Block().Succs[0]
-		case lenOfErrs(bo.X) && isIntConst(bo.Y, 0) && (bo.Op == token.GTR || bo.Op == token.NEQ):
-			emptySide = iff.Block().Succs[1]
-		case lenOfErrs(bo.X) && isIntConst(bo.Y, 0) && bo.Op == token.EQL:
+		case isLen(x) && isIntConst(y, 1) && op == token.LSS:
 			emptySide = iff.Block().Succs[0]
-		case lenOfErrs(bo.X) && isIntConst(bo.Y, 1) && bo.Op == token.LSS:
-			emptySide = iff.Block().Succs[0]
-		case lenOfErrs(bo.X) && isIntConst(bo.Y, 1) && bo.Op == token.GEQ:
+		case isLen(x) && isIntConst(y, 1) && op == token.GEQ:
 			emptySide = iff.Block().Succs[1]
 		}
-		if emptySide != nil && len(emptySide.Preds) == 1 && (emptySide == ret.Block() || emptySide.Dominates(ret.Block())) {
+		if emptySide != nil && len(emptySide.Preds) == 1 && (emptySide == b || emptySide.Dominates(b)) {
 			return true
 		}
 	}
